@@ -267,6 +267,9 @@ _DEFAULT_REKEY_SECONDS = 3600       # 1 hour
 # Default login timeout
 _DEFAULT_LOGIN_TIMEOUT = 120        # 2 minutes
 
+# Time to wait for a key exchange to complete before disconnecting
+_DISCONNECT_TIMEOUT = 10            # 10 seconds
+
 # Default keepalive interval and count max
 _DEFAULT_KEEPALIVE_INTERVAL = 0     # disabled by default
 _DEFAULT_KEEPALIVE_COUNT_MAX = 3
@@ -931,6 +934,7 @@ class SSHConnection(SSHPacketHandler, asyncio.Protocol):
         self._delayed_compress_active = False
         self._deferred_packets: List[Tuple[int, Sequence[bytes]]] = []
         self._deferred_disconnect: Optional[Tuple[int, str, str]] = None
+        self._disconnect_timer: Optional[asyncio.TimerHandle] = None
 
         self._recv_handler = self._recv_version
         self._recv_seq = 0
@@ -1085,6 +1089,10 @@ class SSHConnection(SSHPacketHandler, asyncio.Protocol):
         """Clean up this connection"""
 
         self._cancel_keepalive_timer()
+
+        if self._disconnect_timer:
+            self._disconnect_timer.cancel()
+            self._disconnect_timer = None
 
         for chan in list(self._channels.values()):
             chan.process_connection_close(exc)
@@ -1882,6 +1890,16 @@ class SSHConnection(SSHPacketHandler, asyncio.Protocol):
             self.send_packet(pkttype, *args)
 
         if self._deferred_disconnect and not self._deferred_packets:
+            self._send_deferred_disconnect()
+
+    def _send_deferred_disconnect(self) -> None:
+        """Send a disconnect which was waiting for a key exchange"""
+
+        if self._disconnect_timer:
+            self._disconnect_timer.cancel()
+            self._disconnect_timer = None
+
+        if self._deferred_disconnect:
             code, reason, lang = self._deferred_disconnect
             self._deferred_disconnect = None
 
@@ -3018,6 +3036,12 @@ class SSHConnection(SSHPacketHandler, asyncio.Protocol):
             # re-exchange to complete. Send the disconnect once that
             # data has been sent.
             self._deferred_disconnect = (code, reason, lang)
+
+            # Don't wait forever for a peer which has stopped responding
+            if not self._disconnect_timer:
+                self._disconnect_timer = self._loop.call_later(
+                    _DISCONNECT_TIMEOUT, self._send_deferred_disconnect)
+
             return
 
         self._send_disconnect(code, reason, lang)
